@@ -28,7 +28,8 @@ def main():
                     alarms[pid] = sigs[:3] or [f"exit {r.returncode}: " + (r.stderr or r.stdout)[-200:]]
         finally:
             sh(f"git -C {REPO} checkout -- .")
-        results[d] = {"alarms": alarms, "seconds": round(time.time() - t0, 1)}
+        keep = {k: v for k, v in results.get(d, {}).items() if k in ("verdict", "note")}
+        results[d] = dict(keep, alarms=alarms, seconds=round(time.time() - t0, 1))
         print(d, "ALARMS:" if alarms else "quiet", alarms if alarms else "", f"({results[d]['seconds']}s)")
         json.dump(results, open(res_path, "w"), indent=1, sort_keys=True)
     sh(f"find {VERIF}/replays -name '*.json' -delete")
